@@ -42,16 +42,16 @@ func retoucher() []byte {
 // their inner frames returned successfully; even frames keep their effects.
 func recurser() []byte {
 	a := &Asm{}
-	a.Push1(0).Op(CALLDATALOAD)                      // [n]
-	a.Op(DUP1).Op(ISZERO).Push2(0).Op(JUMPI)         // -> end (patched)
+	a.Push1(0).Op(CALLDATALOAD)              // [n]
+	a.Op(DUP1).Op(ISZERO).Push2(0).Op(JUMPI) // -> end (patched)
 	jEnd := len(a.B) - 3
 	a.Op(DUP1).Push2(0x1000).Op(ADD).Op(BALANCE).Op(POP)
 	a.Push1(0).Push1(0).Push1(0).Push1(0).Push1(1).Op(DUP6).Push2(0x1000).Op(ADD).Op(GAS).Op(CALL).Op(POP)
-	a.Push1(1).Op(DUP2).Op(SUB).Push1(0).Op(MSTORE)  // mem[0] = n-1
+	a.Push1(1).Op(DUP2).Op(SUB).Push1(0).Op(MSTORE) // mem[0] = n-1
 	a.Push1(0).Push1(0).Push1(32).Push1(0).Push1(0).Op(ADDRESS).Op(GAS).Op(CALL).Op(POP)
 	a.Op(DUP1).Push2(0x2000).Op(ADD).Op(BALANCE).Op(POP)
 	a.Push1(1).Op(DUP2).Op(SUB).Push2(0x1000).Op(ADD).Op(BALANCE).Op(POP)
-	a.Push1(1).Op(AND).Push2(0).Op(JUMPI)            // -> rev (patched)
+	a.Push1(1).Op(AND).Push2(0).Op(JUMPI) // -> rev (patched)
 	jRev := len(a.B) - 3
 	end := len(a.B)
 	a.Op(JUMPDEST).Op(STOP)
